@@ -1,0 +1,18 @@
+//go:build verif
+
+package silence
+
+import "github.com/prometheus/common/model"
+
+// VerifCacheEntry returns what the Silencer's cache holds for a fingerprint: whether an entry exists,
+// the store version it is based on and a copy of the cached silence ids. Read-only; used by the
+// verification harness only.
+func (s *Silencer) VerifCacheEntry(fp model.Fingerprint) (found bool, version int, ids []string) {
+	s.cache.mtx.RLock()
+	defer s.cache.mtx.RUnlock()
+	e, ok := s.cache.entries[fp]
+	if !ok {
+		return false, 0, nil
+	}
+	return true, e.version, append([]string(nil), e.silenceIDs...)
+}
